@@ -191,8 +191,19 @@ fn check(id: &str, tier: Tier) -> i32 {
     let _ = std::fs::remove_dir_all(&work);
     std::fs::create_dir_all(&work).unwrap();
     let exe = std::env::current_exe().unwrap();
+    // the same harness built without debug assertions and overflow checks (the flavour users of the crates run):
+    // every second shard executes it, so that code which behaves differently in the two flavours is met in both
+    let plain: Option<PathBuf> = std::env::var("VERIF_VH_PLAIN").ok().map(PathBuf::from).filter(|p| p.exists());
+    let mut plain_shards = 0usize;
     let mut children = Vec::new();
     for i in 0..nshards {
+        let exe = match &plain {
+            Some(p) if i % 2 == 1 => {
+                plain_shards += 1;
+                p.clone()
+            }
+            _ => exe.clone(),
+        };
         let wd = work.join(format!("shard{}", i));
         std::fs::create_dir_all(&wd).unwrap();
         let out = wd.join("out.json");
@@ -402,6 +413,7 @@ fn check(id: &str, tier: Tier) -> i32 {
     if !fuzz_report.is_empty() {
         coverage["fuzz_campaigns"] = json!(fuzz_report);
     }
+    coverage["shards_by_build"] = json!({"debug-assertions+overflow-checks": nshards - plain_shards, "plain-release": plain_shards});
     let mut uniq: BTreeMap<String, (String, String)> = BTreeMap::new();
     for (sig, msg, replay) in violations.iter() {
         uniq.entry(sig.clone()).or_insert((msg.clone(), replay.clone()));
